@@ -103,6 +103,7 @@ def make_stage(st, kind):
             pairs = list(zip(names, range(len(names))))
             if st["form"] == "maprev": pairs.reverse()         # a header map whose iteration order is not the positional order
             return HeadRows(dict(pairs))
+        if st["form"] == "seq": return HeadRows(list(st["names"]))                # sparse rows keyed 0..n-1: the list form
         return HeadRows({n: pykey(k) for n, k in zip(st["names"], st["keys"])})
     if op == "encode":
         if st["form"] == "seq": return EncodeRows([ENC[a["e"]] for a in st["asg"]])
@@ -237,7 +238,7 @@ def wrappers(row):
     return out
 
 
-def signature(case, acc, outcome, row, got=NOTHING):
+def signature(case, acc, outcome, row, got=NOTHING, exp=None):
     """A stable class name for a disagreement.  First the specific classes - one per defect found on the unchanged tree
     (tools/claims/C13.report.md) - each recognised by the construct that causes it; everything else gets a generic name
     built from the table kind, the outermost wrapper class, the access and the outcome, so any other disagreement is
@@ -265,7 +266,9 @@ def signature(case, acc, outcome, row, got=NOTHING):
     # (5) EncodeSparse.__getitem__ returns None for an absent key (rows.py 264-268) - also seen as label None under LabelRows
     if "EncodeSparse" in chain and a in ("key", "fkey", "label", "labeled"):
         g = got[1] if (a == "labeled" and isinstance(got, tuple) and len(got) == 3) else got
-        if g is None: return "sparse:EncodeSparse:absent-key-gives-None"
+        e = exp.get("label") if (a == "labeled" and isinstance(exp, dict)) else exp
+        absent = isinstance(e, dict) and (e.get("t") == "err" or (e.get("t") == "i" and e.get("v") == 0))   # no entry / the defaulted label
+        if g is None and absent: return "sparse:EncodeSparse:absent-key-gives-None"
     # (6) len(LazySparse) counts the parsed entries only, keys() / items() include the defaulted columns (rows.py 108-113)
     if a == "len" and chain[:1] == ["LazySparse"]: return "len:LazySparse:defaulted-columns-not-counted"
     outer = chain[0] if chain else "-"
@@ -290,7 +293,7 @@ def replay(ctx, case, counts):
             counts[0] += 1
             bad = check_access(row, st["acc"], st["obs"][r], kind)
             if bad:
-                sig = signature(case, st["acc"], bad[0], row, bad[2])
+                sig = signature(case, st["acc"], bad[0], row, bad[2], st["obs"][r])
                 if sig not in found:
                     found[sig] = "row %d, %s, %s%s: %s  [wrappers %s]" % (r, where, st["acc"]["a"], "" if st["acc"]["k"] == 0 and st["acc"]["a"] not in ("pos", "fpos") else "(%r)" % (st["acc"]["k"],), bad[1], ">".join(wrappers(row)))
     return sorted(found.items())
@@ -304,8 +307,8 @@ def describe(case):
 def run(ctx):
     S2, S3 = "MaxStages = 2", "MaxStages = 3"
     if ctx.quick:
-        plans = [("s2a1", {}, None, 200),
-                 ("sim-s3a3", {S2: S3, "MaxAcc = 1": "MaxAcc = 3", "Lite = TRUE": "Lite = FALSE"}, (dict(num=12), 9), 200)]
+        plans = [("s2a1-full", {"Lite = TRUE": "Lite = FALSE"}, None, 200),
+                 ("sim-s3a3", {S2: S3, "MaxAcc = 1": "MaxAcc = 3", "Lite = TRUE": "Lite = FALSE"}, (dict(num=40), 9), 200)]
     else:
         plans = [("s2a2", {"MaxAcc = 1": "MaxAcc = 2"}, None, 5000),
                  ("s3a1", {S2: S3}, None, 5000),
@@ -333,8 +336,7 @@ def run(ctx):
                 hists[json.dumps([j["base"], j["stack"], [h["acc"] for h in j["hist"]]], sort_keys=True)] = j
         r.json = None; r.out = None
         if len(hists) < least: raise RuntimeError("LazyRows %s produced only %d behaviours" % (name, len(hists)))
-        if not sim: ctx.exhaustive = True if ctx.exhaustive is None else ctx.exhaustive
-        else: ctx.exhaustive = False
+        if not sim: ctx.exhaustive = True if ctx.exhaustive is None else ctx.exhaustive      # the bounded-exhaustive plans are complete
         keys = sorted(hists)
         orphans = 0
         for key in keys:
@@ -346,13 +348,18 @@ def run(ctx):
             c = dict(st, hist=h["hist"])
             total += 1
             ctx.case(key)
+            if os.environ.get("C13_DRY"): continue
             for sig, what in replay(ctx, c, counts):
                 ctx.violation(sig, "%s: %s" % (describe(c), what), dict(base=c["base"], stack=c["stack"], hist=c["hist"]))
+        if not sim:
+            missing = {"head", "encode", "drop", "label", "encodecat"} - {s["op"] for st in stacks.values() for s in st["stack"]}
+            if missing or {st["kind"] for st in stacks.values()} != {"dense", "sparse"}: raise RuntimeError("vacuous model run %s: filters never stacked: %s" % (name, sorted(missing)))
         if orphans and not sim: raise RuntimeError("LazyRows %s: %d histories without their pipeline record" % (name, orphans))
         if keys:
             h = hists[keys[len(keys) // 2]]
             ctx.sample(dict(base=h["base"], filters=[stage_name(s) for s in h["stack"]], history=h["hist"]), limit=4)
         ctx.extra.setdefault("pipelines", {})[name] = len(stacks)
+        ctx.extra.setdefault("behaviours", {})[name] = dict(printed=len(hists), orphans=orphans)
     sys.unraisablehook = old_hook
     ctx.traces += total
     ctx.extra["accesses_compared"] = counts[0]
